@@ -265,6 +265,28 @@ def run_c05(tier, seed, work, ncases):
                     if n_["k"] == "f" and (post_dst.get(r) or {}).get("cid") != n_["cid"] and tasks.get(r) in ("c", "u"):
                         rep.oracle_fail("C05/update-lost", f"{r} was planned for transfer but does not hold the source content after a successful -j run", desc)
             shutil.rmtree(case_dir, ignore_errors=True)
+        # ---- targeted: siblings that differ only in their extension, all updated through the block-delta path at once
+        for ci in range(2 if tier == "quick" else 10):
+            case_dir = os.path.join(work, f"stems{ci}"); src_root, dst_root = os.path.join(case_dir, "src"), os.path.join(case_dir, "dst")
+            src, dst = {}, {}
+            t = BASE_T * 10**9
+            for i in range(6):
+                for ext in ("bin", "dat", "tar.gz"):
+                    # ~1 MiB each with 256-byte blocks: thousands of seek+write calls per file, so that the updates really overlap
+                    d = rng.bytes(4096) * rng.pick([200, 256, 300]); j = rng.range(1024, len(d) - 1)
+                    src[f"p{i}.{ext}"] = F(d, t + 90 * 10**9); dst[f"p{i}.{ext}"] = F(d[:j] + bytes([d[j] ^ 0xFF]) + d[j + 1:], t)
+            materialize(src_root, src, {}); materialize(dst_root, dst, {})
+            flags = ["-j", "8"]
+            rc, out, err = run_sy([src_root, dst_root, "--json"] + flags, case_dir, env_extra={"SY_VERIF_DELTA_THRESHOLD": "4096", "SY_VERIF_BLOCK_SIZE": "256"})
+            post = snapshot(dst_root, contents); s_ = snapshot(src_root, contents)
+            wrong = sorted(r for r, n_ in s_.items() if (post.get(r) or {}).get("cid") != n_["cid"])
+            rep.case(("same-stem-siblings", ci), True); rep.tag("targeted.same-stem-siblings")
+            desc = {"case": ci, "seed": seed, "flags": flags, "scenario": "18 files p<i>.{bin,dat,tar.gz}, each with one changed block, updated through the block-delta path with 8 workers", "rc": rc, "stderr": err[-200:]}
+            if wrong or rc != 0:
+                rep.oracle_fail("C05/temp-collision/same-stem-siblings", f"concurrent updates of siblings that differ only in their extension interfered: exit {rc}, stale or wrong: {wrong[:4]}", desc)
+            left = [r for r in post if r.endswith(".sy.tmp")]
+            if left: rep.oracle_fail("C05/working-file-left", f"working files remain: {left[:3]}", desc)
+            shutil.rmtree(case_dir, ignore_errors=True)
         # ---- the recorded residual finding: a user's own destination file literally named like the working file
         for ci in range(1 if tier == "quick" else 4):
             case_dir = os.path.join(work, f"tmpname{ci}"); src_root, dst_root = os.path.join(case_dir, "src"), os.path.join(case_dir, "dst")
